@@ -798,7 +798,7 @@ func C16(c *vk.Ctx) {
 		rng.Shuffle(len(tour), func(i, j int) { tour[i], tour[j] = tour[j], tour[i] })
 		used := 0
 		for wi, w := range tour {
-			if used >= c.Pick(500, 20000) || c.Violations() > 6 {
+			if used >= c.Pick(300, 20000) || c.Violations() > 6 {
 				break
 			}
 			// only walks that actually restart are interesting here
